@@ -167,6 +167,187 @@ def _harness(qi, a0, a1, a2, a3, a4, a5, start=0):
     return all(got == alone for got, n in results)
 
 
+# ---- preemption inside a query method -----------------------------------------------------------------------------------
+# A cached translator is shared by every thread that runs the same program location.  Between two bytecodes of a query METHOD
+# (count(), random(), delete(bulk=True) ...) of thread A another thread may run the same location from start to end; it must
+# still build its own single-threaded SQL (a method that changes the shared translator "for a moment" breaks that).
+# The preemption point is the symbolic input: the second thread runs at the k-th preemption point (see STRIDE) during A's method.
+
+def q_ordered(db, x, y):
+    return db.T.select(lambda t: t.a >= x).order_by(lambda t: (t.s, t.a))       # (x is a plain parameter: both threads share one cached translator)
+
+ACTS = [('order_by_none', lambda q: q.order_by(None)[:]), ('count', lambda q: q.count()), ('random', lambda q: q.random(2)), ('delete', lambda q: q.delete(bulk=True)), ('first', lambda q: q.first()),
+        ('without_distinct_count', lambda q: q.without_distinct().count()), ('exists', lambda q: q.exists()), ('get', lambda q: q.get()),
+        ('fetch', lambda q: q[:]), ('for_update', lambda q: q.for_update()[:2]), ('len', lambda q: len(q))]
+KMAX = 1024
+STRIDE = 8          # preemption points: every entry into a pony function, and every STRIDE-th entry into any other Python function (copy.deepcopy ...)
+_alone = {}
+
+
+def run_location(ai, args, hook=None):
+    """one thread's work at the program location: build the query, run method ai on it (optionally with a profile hook set for the
+    duration of the method), then build the plain SQL of the same query.  Returns the SQL of the method and the plain SQL."""
+    import sys
+    from pony.orm import db_session, rollback
+    db = _state['db']
+    try:
+        with db_session:
+            try:
+                q = q_ordered(db, *args)
+                if hook is not None: sys.setprofile(hook)
+                try: r = ACTS[ai][1](q)
+                finally:
+                    if hook is not None: sys.setprofile(None)
+                method_sql = db.last_sql
+                sql, arguments, _, _ = q._construct_sql_and_arguments()
+                return ('ok', repr(r), method_sql, sql, repr(arguments))
+            finally:
+                rollback()
+    except Exception as e:
+        return ('error', type(e).__name__, str(e)[:80])
+
+
+def _is_point(frame, m):
+    if '/pony/' in frame.f_code.co_filename: return True
+    m[0] += 1
+    return m[0] % STRIDE == 0
+
+
+def preempt_body(ai, k):
+    if ai not in _alone:
+        clear()
+        n = [0]
+        m = [0]
+        def count(frame, ev, arg):
+            if ev == 'call' and _is_point(frame, m): n[0] += 1
+        a = run_location(ai, ARGS_A, count)
+        clear()
+        b = run_location(ai, ARGS_B)
+        _alone[ai] = (a, b, n[0])
+    alone_a, alone_b, events = _alone[ai]
+    if events > KMAX: return False, 'method %s enters %d pony functions: more than the KMAX preemption points explored' % (ACTS[ai][0], events)
+    if k >= events: return True, 'no such preemption point'
+    clear()
+    n = [0]
+    box = []
+    m = [0]
+    def hook(frame, ev, arg):
+        if ev == 'call' and _is_point(frame, m):
+            n[0] += 1
+            if n[0] == k + 1:
+                th = threading.Thread(target=lambda: box.append(run_location(ai, ARGS_B)))
+                ths.append(th)
+                th.start(); th.join(1.5)          # (still alive: it waits for a lock that A holds - SQLite's write lock - and goes on when A is through)
+    ths = []
+    got_a = run_location(ai, ARGS_A, hook)
+    for th in ths: th.join(30)
+    clear()
+    if not box: return (k > 0), 'the method entered fewer pony functions this time: no such preemption point'      # (k == 0 always exists)
+    if got_a != alone_a: return False, 'thread A: %r, alone: %r' % (got_a, alone_a)
+    if box[0] != alone_b: return False, 'second thread: %r, alone: %r' % (box[0], alone_b)
+    return True, ''
+
+
+def _preempt(ai, k):
+    lo, hi = 0, KMAX - 1
+    while lo < hi:                      # binary search: log2(KMAX) solver decisions make k concrete
+        mid = (lo + hi) // 2
+        if k <= mid: hi = mid
+        else: lo = mid + 1
+    with NoTracing():
+        r, why = preempt_body(ai, lo)
+    _state['why'] = why
+    return r
+
+
+def preempt_order_by_none(k: int) -> bool:
+    """
+    pre: 0 <= k < KMAX
+    post: _
+    """
+    return ok(_preempt(0, k))
+
+
+def preempt_count(k: int) -> bool:
+    """
+    pre: 0 <= k < KMAX
+    post: _
+    """
+    return ok(_preempt(1, k))
+
+
+def preempt_random(k: int) -> bool:
+    """
+    pre: 0 <= k < KMAX
+    post: _
+    """
+    return ok(_preempt(2, k))
+
+
+def preempt_delete(k: int) -> bool:
+    """
+    pre: 0 <= k < KMAX
+    post: _
+    """
+    return ok(_preempt(3, k))
+
+
+def preempt_first(k: int) -> bool:
+    """
+    pre: 0 <= k < KMAX
+    post: _
+    """
+    return ok(_preempt(4, k))
+
+
+def preempt_without_distinct_count(k: int) -> bool:
+    """
+    pre: 0 <= k < KMAX
+    post: _
+    """
+    return ok(_preempt(5, k))
+
+
+def preempt_exists(k: int) -> bool:
+    """
+    pre: 0 <= k < KMAX
+    post: _
+    """
+    return ok(_preempt(6, k))
+
+
+def preempt_get(k: int) -> bool:
+    """
+    pre: 0 <= k < KMAX
+    post: _
+    """
+    return ok(_preempt(7, k))
+
+
+def preempt_fetch(k: int) -> bool:
+    """
+    pre: 0 <= k < KMAX
+    post: _
+    """
+    return ok(_preempt(8, k))
+
+
+def preempt_for_update(k: int) -> bool:
+    """
+    pre: 0 <= k < KMAX
+    post: _
+    """
+    return ok(_preempt(9, k))
+
+
+def preempt_len(k: int) -> bool:
+    """
+    pre: 0 <= k < KMAX
+    post: _
+    """
+    return ok(_preempt(10, k))
+
+
 def adversary_q0(a0: int, a1: int, a2: int, a3: int, a4: int, a5: int) -> bool:
     """
     pre: 0 <= a0 <= 4 and 0 <= a1 <= 4 and 0 <= a2 <= 4 and 0 <= a3 <= 4 and a4 == 0 and a5 == 0
